@@ -372,6 +372,7 @@ func (w *w1) opVerify(client int) {
 			offset := int64(0)
 			hw := int64(-1)
 			fails := 0
+			faultsSeen := -1
 			for iter := 0; iter < 200; iter++ {
 				fr := w.rawFetch(n, client, topic, part, offset, 1<<20)
 				if fr == nil {
@@ -383,6 +384,18 @@ func (w *w1) opVerify(client int) {
 				}
 				if fr.code != 0 {
 					fails++
+					// a failure with a freshly injected fault behind it says nothing about the log: only
+					// failures in a row that no new fault explains count (two transient read faults that
+					// each hit one restore attempt, with the health window's rejections between them, used
+					// up the whole budget once in 200 000 runs)
+					fired := 0
+					for _, v := range w.sim.Stats.FaultsFired {
+						fired += v
+					}
+					if fired != faultsSeen {
+						faultsSeen = fired
+						fails = 1
+					}
 					if fr != nil && fr.code == 3 { // unknown topic/partition: nothing was ever written
 						break
 					}
